@@ -216,19 +216,24 @@ Definition str_contains (v : option pystr) (len mnl mxl : option intv) (al sub :
       Ok (SStr v len mnl mxl al (Some t) pat)
   end.
 
+(* a str offered as a pattern, with its parse information *)
+Definition a_pat (a : arg) : option (pystr * list re * bool) :=
+  match a with APattern src tree compiles => Some (src, tree, compiles) | _ => None end.
+(* a str without parse information: not an input of the model when offered to [regex] *)
+Definition a_rawstr (a : arg) : bool := match a with AVal (VStr _) => true | _ => false end.
+
 (* regex: isinstance; exclusivity guard; re.compile (re.error and OverflowError both become
    DeclarationError); re.search against a fixed value ([pat_search] as in Validate.v) *)
 Definition str_regex (v : option pystr) (len mnl mxl : option intv) (al sub : option pystr)
            (pat : option (pystr * list re)) (a : arg) : result schema :=
-  match a with
-  | APattern src tree compiles =>
+  match a_pat a with
+  | Some (src, tree, compiles) =>
       if is_some pat || is_some al || is_some len || is_some mnl || is_some mxl || is_some sub
       then dE else
       if negb compiles then dE else
       if match v with Some x => negb (pat_search (src, tree) x) | None => false end then dE else
       Ok (SStr v len mnl mxl al sub (Some (src, tree)))
-  | AVal (VStr _) => Raise OtherExn      (* a str without its parse information: not an input of the model *)
-  | _ => dE
+  | None => if a_rawstr a then Raise OtherExn else dE
   end.
 
 (* ================= list ================= *)
@@ -482,13 +487,15 @@ Definition has_meth (k : kind) (m : meth) : bool :=
    [regex] comes with its parse information *)
 Definition arity_ok (k : kind) (m : meth) (args : list arg) : bool :=
   has_meth k m &&
-  match m, args with
-  | MLen, ([_] | [_; _]) => true
-  | MLen, _ => false
-  | MCall, _ :: _ => match k with KdAny => true | _ => match args with [_] => true | _ => false end end
-  | MRegex, [AVal (VStr _)] => false
-  | _, [_] => true
-  | _, _ => false
+  match m with
+  | MLen => match args with [_] | [_; _] => true | _ => false end
+  | MCall =>
+      match k with
+      | KdAny => match args with [] => false | _ => true end
+      | _ => match args with [_] => true | _ => false end
+      end
+  | MRegex => match args with [a] => negb (a_rawstr a) | _ => false end
+  | _ => match args with [_] => true | _ => false end
   end.
 
 (* the property a method sets is already declared *)
@@ -670,3 +677,19 @@ Fixpoint arg_no_nan (a : arg) : bool :=
   | ADict d => forallb (fun x => x) (map (fun kx => arg_no_nan (snd kx)) d)
   end.
 Definition no_nan_args (args : list arg) : bool := forallb arg_no_nan args.
+
+(* ---- outcomes up to the text of the DeclarationError (C11) ---- *)
+Definition outcome_eq (a b : result schema) : Prop :=
+  match a, b with
+  | Ok x, Ok y => x = y
+  | Err _, Err _ => True
+  | Raise e, Raise e' => e = e'
+  | _, _ => False end.
+
+(* s.o1(a1).o2(a2) *)
+Definition then2 (o1 : meth) (a1 : list arg) (o2 : meth) (a2 : list arg) (s : schema) : result schema :=
+  do s' <- decl o1 s a1; decl o2 s' a2.
+
+(* every op of a chain is an arity-correct non-value refinement of the type *)
+Definition refinement_ops (k : kind) (ops : list op) : Prop :=
+  Forall (fun o : op => refinement (fst o) = true /\ arity_ok k (fst o) (snd o) = true) ops.
